@@ -48,6 +48,7 @@ fn rx_str(s: &RxCtrState) -> String {
 const Y_EPOCH_KEY: [u8; 16] = [0x11; 16];
 const Y_OTHER_KEY: [u8; 16] = [0x22; 16];
 const Y_GROUP: u16 = 0x0101;
+const Y_GROUP2: u16 = 0x0102;
 
 fn y_canon(bytes: &[u8; 16]) -> CanonAeadKey {
     let mut k = CanonAeadKey::new();
@@ -105,6 +106,7 @@ fn run_y(ops: &str) -> String {
             .key_set_add(GroupKeySet { group_key_set_id: 100, group_key_security_policy: 0, epoch_keys })
             .unwrap();
         fabric.groups_mut().key_map_add(GroupKeyMapping { group_id: Y_GROUP, group_key_set_id: 100 }).unwrap();
+        fabric.groups_mut().key_map_add(GroupKeyMapping { group_id: Y_GROUP2, group_key_set_id: 100 }).unwrap();
     });
     let op_key = y_op_key(&crypto, &Y_EPOCH_KEY);
     let other_key = y_op_key(&crypto, &Y_OTHER_KEY);
@@ -125,7 +127,9 @@ fn run_y(ops: &str) -> String {
         let mut hdr = PacketHdr::new();
         hdr.plain = PlainHdr::verif_from_raw(0, gsid, 0x01, ctr, 0, 0).unwrap();
         hdr.plain.set_src_nodeid(Some(node));
-        hdr.plain.set_dst_groupcast_nodeid(Some(Y_GROUP));
+        // kinds `b` / `B`: the same sender and key, addressed to the SECOND group mapped to the key set
+        let to_group2 = p[0] == "b" || p[0] == "B";
+        hdr.plain.set_dst_groupcast_nodeid(Some(if to_group2 { Y_GROUP2 } else { Y_GROUP }));
         hdr.proto = ProtoHdr::verif_from_raw(80 + i as u16, 0x01, 1, 8, 0, 0).unwrap();
         let mut wire = match p[0] {
             "w" => y_seal(&crypto, &other_key, node, &hdr, &payload),
@@ -153,6 +157,10 @@ fn run_y(ops: &str) -> String {
             Err(_) => 'x',
         });
         // the handler is done with the message at once: the ephemeral session of the sender goes
+        // (kind `A`: the handler is still busy with it - the session stays until an `r` operation)
+        if p[0] != "a" && p[0] != "b" {
+            continue;
+        }
         matter.with_state(|state| {
             let sessions = state.verif_sessions();
             let ids: Vec<u32> = sessions.iter().map(|s| s.id()).collect();
@@ -168,7 +176,20 @@ fn run_y(ops: &str) -> String {
         })
     });
     ents.sort();
-    format!("{} {} {}", flags, clock, ents.join(";"))
+    // the sessions left at the end, each labelled with the group it stands for (the subject its
+    // messages are evaluated with) and its sender
+    let mut live: Vec<String> = matter.with_state(|state| {
+        state
+            .verif_sessions()
+            .iter()
+            .map(|s| match s.get_session_mode() {
+                SessionMode::Group { group_id, .. } => format!("{}/{}", s.get_peer_node_id().unwrap_or(0), group_id),
+                _ => "?".to_string(),
+            })
+            .collect()
+    });
+    live.sort();
+    format!("{} {} {} live={}", flags, clock, ents.join(";"), live.join(","))
 }
 
 fn run_line(line: &str, out: &mut String) {
@@ -508,7 +529,15 @@ fn generate(tier: &str, seed: u64) -> (Vec<String>, BTreeMap<&'static str, u64>)
                 if c.wrapping_sub(ctrs[s]) & 0xffff_ffff < 0x8000_0000 {
                     ctrs[s] = c;
                 }
-                ops.push(format!("a:{}:{}", node, c));
+                // one authentic message in three leaves the sender's ephemeral session behind (its
+                // handler is still busy): the next messages of the sender find that session
+                let kind = match (rng.chance(1, 3), rng.chance(1, 4)) {
+                    (true, false) => "A",
+                    (true, true) => "B",
+                    (false, true) => "b",
+                    _ => "a",
+                };
+                ops.push(format!("{}:{}:{}", kind, node, c));
             } else {
                 // forged: the counter the sender will use next, far ahead (window poisoning), or one already used
                 let c = match rng.below(4) {
@@ -527,6 +556,15 @@ fn generate(tier: &str, seed: u64) -> (Vec<String>, BTreeMap<&'static str, u64>)
         }
         cases.push(format!("Y {} {}", next_id(), ops.join(",")));
     }
+    // messages that reach the sender's ephemeral session, then copies of them once it is gone
+    cases.push(format!("Y {} A:7000:10,A:7000:11,a:7000:12,a:7000:11,a:7000:12,a:7000:10", next_id()));
+    cases.push(format!("Y {} A:7000:4294967290,A:7000:4294967291,a:7001:5,a:7000:4294967291,a:7000:4294967290", next_id()));
+    cases.push(format!("Y {} A:7000:100,f:7000:101,A:7000:101,a:7000:99,a:7000:101,a:7000:99,a:7000:100", next_id()));
+    // two groups on one key set: a message for the second group while the sender's session for the
+    // first is alive gets a session of its own (the group is the subject its access is evaluated with)
+    cases.push(format!("Y {} A:7000:10,B:7000:11", next_id()));
+    cases.push(format!("Y {} B:7000:10,A:7000:11,A:7001:5,B:7001:6", next_id()));
+    cases.push(format!("Y {} A:7000:10,B:7000:11,A:7000:12,B:7000:13,B:7000:11,A:7000:10", next_id()));
 
     // --- exhaustive one-step sweep: all 2^16 bitmaps per (max, enc, roll, offset)
     let maxes: [u64; 8] = [0, 16, 40, 0x7fff_ffff, 0x8000_0000, 0xffff_ffef, 0xffff_ffff, 0x1234_5678];
